@@ -266,7 +266,7 @@ func (e *Exec) Verify() (obls []*Obligation, err error) {
 			if sa.LetName != "" || sa.Optional {
 				continue // a remembered value that is never defined stays false
 			}
-			if e.counts[fmt.Sprintf("site:%d:%s", ai, sa.When)] == 0 {
+			if e.counts[fmt.Sprintf("fired:site:%d:%s", ai, sa.When)] == 0 {
 				return nil, fmt.Errorf("%s: contract clause '%s %s: %s' matches no program point", shortKey(e.topName), sa.When, sa.Pattern, sa.Clause.Text)
 			}
 		}
